@@ -34,12 +34,57 @@ def BTy.all : List BTy := [.mint, .int, .bool, .str]
 
 theorem BTy.mem_all (t : BTy) : t ∈ BTy.all := by cases t <;> simp [BTy.all]
 
-/-- a signature `name: (args) -> res` (the function types of the core are first order) -/
-structure Sig where
+/-- a parameter `name: ty` or `name: ty == (dflt@ty)` (a default value is a literal) -/
+structure Param where
   name : String
-  args : List BTy
-  res  : BTy
+  ty   : BTy
+  dflt : Option Nat := none
 deriving DecidableEq, Repr, Inhabited
+
+/-- a signature `name: (params) -> res` (the function types of the core are first order).
+`anon`: written without parameter names, `name: (T1, T2) -> R` (category signatures only;
+keyword arguments cannot refer to its parameters). -/
+structure Sig where
+  name   : String
+  params : List Param
+  res    : BTy
+  anon   : Bool := false
+deriving DecidableEq, Repr, Inhabited
+
+def Sig.args (s : Sig) : List BTy := s.params.map (·.ty)
+
+def nodupB {α : Type} [BEq α] : List α → Bool
+  | [] => true
+  | x :: xs => !xs.contains x && nodupB xs
+
+/-- how a call with `n` arguments, the last `keys.length` of them keyword arguments named `keys`,
+meets a signature: the expected type of every argument, or why the call cannot be matched
+(reasons in this order of precedence). -/
+inductive Shape where
+  | ok (ts : List BTy)
+  /-- a keyword that is not the name of a parameter -/
+  | unknownKw
+  /-- a keyword naming a parameter already given positionally, or given twice -/
+  | dupArg
+  /-- too many positional arguments, or a parameter without default left out -/
+  | count
+deriving DecidableEq, Repr
+
+def Shape.isOk : Shape → Bool
+  | .ok _ => true
+  | _ => false
+
+def Sig.shape (σ : Sig) (n : Nat) (keys : List String) : Shape :=
+  let np := n - keys.length
+  if n < keys.length then .count
+  else if (σ.anon && !keys.isEmpty) || keys.any (fun k => !(σ.params.map (·.name)).contains k) then .unknownKw
+  else if keys.any (fun k => ((σ.params.take np).map (·.name)).contains k) || !nodupB keys then .dupArg
+  else if σ.params.length < np ||
+          (σ.params.drop np).any (fun p => p.dflt.isNone && !keys.contains p.name) then .count
+  else .ok ((σ.params.take np).map (·.ty) ++
+            keys.map (fun k => match σ.params.find? (·.name == k) with
+                               | some p => p.ty
+                               | none => .mint))
 
 /-- the types of the core: value types, function types, a domain type (its list of exports)
 and a category (its list of required signatures). -/
@@ -52,14 +97,18 @@ deriving DecidableEq, Repr
 
 def Sig.ty (s : Sig) : Ty := .fn s.args s.res
 
+/-- same operator type (parameter names and defaults aside) -/
+def Sig.sameType (a b : Sig) : Bool := a.name == b.name && a.args == b.args && a.res == b.res
+
 /-! ## Syntax -/
 
 inductive Expr where
   /-- literal with its explicit type annotation, rendered `(n@T)` -/
   | lit (t : BTy) (n : Nat)
   | var (x : String)
-  /-- `f(args)` or `f(args)$q` -/
-  | app (f : String) (q : Option String) (args : List Expr)
+  /-- `f(args)` or `f(args)$q`.  The last `keys.length` arguments are keyword arguments
+  `k == e` with the names `keys`; the others are positional. -/
+  | app (f : String) (q : Option String) (args : List Expr) (keys : List String)
 deriving Repr, Inhabited
 
 inductive Stmt where
@@ -67,16 +116,20 @@ inductive Stmt where
   | defVar   (x : String) (t : BTy) (e : Expr)   -- `x: T := e` (`local x: T := e` in a function)
   | assign   (x : String) (e : Expr)             -- `x := e`
   | ret      (e : Expr)                          -- `return e`
+  | value    (e : Expr)                          -- `e` as the last expression of a `{…}` body
+  | exit     (c : String) (e : Expr)             -- `c => e` (c a Boolean value in scope)
 deriving Repr, Inhabited
 
 structure FunDef where
   name   : String
-  params : List (String × BTy)
+  params : List Param
   res    : BTy
   body   : List Stmt
+  /-- `f(…): R == e` without braces (the body is then a single `.value e`) -/
+  bare   : Bool := false
 deriving Repr, Inhabited
 
-def FunDef.sig (d : FunDef) : Sig := ⟨d.name, d.params.map (·.2), d.res⟩
+def FunDef.sig (d : FunDef) : Sig := { name := d.name, params := d.params, res := d.res }
 
 inductive Decl where
   | cat (name : String) (sigs : List Sig)                       -- `C: Category == with {…}`
@@ -184,8 +237,8 @@ def meanings (Γ : Env) (f : String) : Option String → List Meaning
     let sibs := (named f Γ.sibs).map (Meaning.mk .sib)
     let outer := (named f Γ.g.funcs).map (Meaning.mk .top) ++
       Γ.g.imports.flatMap (fun d => (named f (Γ.g.domSigs d)).map (Meaning.mk (.dom d)))
-    -- a definition of the enclosing `add` hides outer meanings with the same signature
-    sibs ++ outer.filter (fun m => !(named f Γ.sibs).contains m.sig)
+    -- a definition of the enclosing `add` hides outer meanings with the same type
+    sibs ++ outer.filter (fun m => !(named f Γ.sibs).any (·.sameType m.sig))
   | some Q =>
     if Γ.isParam (some Q) then
       match Γ.param with
@@ -195,6 +248,11 @@ def meanings (Γ : Env) (f : String) : Option String → List Meaning
 
 /-! ## Bottom-up: the possible types of an expression (executable) -/
 
+/-- a keyword argument `k == e` is scoped like a definition of `k` where the call stands: the
+compiler rejects it when `k` is a parameter or variable there ("a local constant may not have
+the same name as an outer variable or parameter") -/
+def keysFree (Γ : Env) (keys : List String) : Bool := keys.all (fun k => (Γ.lookupVal k).isNone)
+
 mutual
 /-- `canTy Γ e t`: some choice of meanings gives `e` the type `t` -/
 def canTy (Γ : Env) : Expr → BTy → Bool
@@ -202,7 +260,12 @@ def canTy (Γ : Env) : Expr → BTy → Bool
   | .var x, t => match Γ.lookupVal x with
     | some v => v.ty == t
     | none => false
-  | .app f q args, t => (meanings Γ f q).any (fun m => m.sig.res == t && canTyArgs Γ args m.sig.args)
+  | .app f q args keys, t =>
+    keysFree Γ keys &&
+    (meanings Γ f q).any (fun m => m.sig.res == t &&
+      match m.sig.shape args.length keys with
+      | .ok ts => canTyArgs Γ args ts
+      | _ => false)
 def canTyArgs (Γ : Env) : List Expr → List BTy → Bool
   | [], [] => true
   | a :: as, t :: ts => canTy Γ a t && canTyArgs Γ as ts
@@ -211,13 +274,19 @@ end
 
 def typeable (Γ : Env) (e : Expr) : Bool := BTy.all.any (canTy Γ e)
 
+/-- the arguments of a call meet the signature -/
+def fits (Γ : Env) (args : List Expr) (keys : List String) (σ : Sig) : Bool :=
+  match σ.shape args.length keys with
+  | .ok ts => canTyArgs Γ args ts
+  | _ => false
+
 /-! ## Errors -/
 
 inductive ErrKind where
   | wrongArgType | wrongArgCount | undefinedName | ambiguous | assignConst | wrongReturnType
-  | missingExport | paramLacksOp
+  | missingExport | paramLacksOp | unknownKeyword | duplicateArg
   -- not produced by the catalogue:
-  | typeMismatch | notAssignable | misplacedReturn | missingReturn | internal
+  | typeMismatch | notAssignable | misplacedReturn | missingReturn | keywordClash | internal
 deriving DecidableEq, Repr, Inhabited
 
 abbrev Site := List Nat
@@ -229,20 +298,29 @@ deriving DecidableEq, Repr, Inhabited
 
 /-! ## Bottom-up diagnosis: the first node (post-order) without any possible type -/
 
+def shapeErr : Shape → ErrKind
+  | .unknownKw => .unknownKeyword
+  | .dupArg => .duplicateArg
+  | .count => .wrongArgCount
+  | .ok _ => .internal
+
 mutual
 /-- for an expression that is not `typeable`: kind and site of the innermost-leftmost cause -/
 def explain (Γ : Env) (site : Site) : Expr → TypeErr
   | .lit _ _ => ⟨.internal, site⟩
   | .var _ => ⟨.undefinedName, site⟩
-  | .app f q args =>
+  | .app f q args keys =>
     match explainArgs Γ site 0 args with
     | some e => e
     | none =>
-      if (meanings Γ f q).isEmpty then
-        ⟨if Γ.isParam q then .paramLacksOp else .undefinedName, site⟩
-      else if (meanings Γ f q).all (fun m => m.sig.args.length != args.length) then
-        ⟨.wrongArgCount, site⟩
-      else ⟨.wrongArgType, site⟩
+      if !keysFree Γ keys then ⟨.keywordClash, site⟩
+      else match meanings Γ f q with
+        | [] => ⟨if Γ.isParam q then .paramLacksOp else .undefinedName, site⟩
+        | m :: ms =>
+          -- no meaning can even be matched against the call: the reason of the first one
+          if (m :: ms).all (fun x => !(x.sig.shape args.length keys).isOk) then
+            ⟨shapeErr (m.sig.shape args.length keys), site⟩
+          else ⟨.wrongArgType, site⟩
 def explainArgs (Γ : Env) (site : Site) (i : Nat) : List Expr → Option TypeErr
   | [] => none
   | a :: as =>
@@ -253,9 +331,9 @@ end
 /-! ## Top-down: the expected type must select exactly one meaning at every application -/
 
 /-- the meanings of `f` that can produce `t` from these arguments -/
-def candidates (Γ : Env) (f : String) (q : Option String) (args : List Expr) (t : BTy) :
-    List Meaning :=
-  (meanings Γ f q).filter (fun m => m.sig.res == t && canTyArgs Γ args m.sig.args)
+def candidates (Γ : Env) (f : String) (q : Option String) (args : List Expr) (keys : List String)
+    (t : BTy) : List Meaning :=
+  (meanings Γ f q).filter (fun m => m.sig.res == t && fits Γ args keys m.sig)
 
 mutual
 def checkTD (Γ : Env) (site : Site) : Expr → BTy → Except TypeErr Unit
@@ -263,10 +341,14 @@ def checkTD (Γ : Env) (site : Site) : Expr → BTy → Except TypeErr Unit
   | .var x, t => match Γ.lookupVal x with
     | some v => if v.ty == t then .ok () else .error ⟨.typeMismatch, site⟩
     | none => .error ⟨.undefinedName, site⟩
-  | .app f q args, t =>
-    match candidates Γ f q args t with
+  | .app f q args keys, t =>
+    if !keysFree Γ keys then .error ⟨.keywordClash, site⟩
+    else match candidates Γ f q args keys t with
     | [] => .error ⟨.typeMismatch, site⟩
-    | [m] => checkTDArgs Γ site 0 args m.sig.args
+    | [m] =>
+      match m.sig.shape args.length keys with
+      | .ok ts => checkTDArgs Γ site 0 args ts
+      | _ => .error ⟨.internal, site⟩
     | _ :: _ :: _ => .error ⟨.ambiguous, site⟩
 def checkTDArgs (Γ : Env) (site : Site) (i : Nat) : List Expr → List BTy → Except TypeErr Unit
   | [], [] => .ok ()
@@ -298,6 +380,18 @@ def checkStmt (Γ : Env) (ret : Option BTy) (site : Site) : Stmt → Except Type
     match ret with
     | some r => checkExpr Γ site .wrongReturnType e r
     | none => .error ⟨.misplacedReturn, site⟩
+  | .value e =>
+    match ret with
+    | some r => checkExpr Γ site .wrongReturnType e r
+    | none => .error ⟨.misplacedReturn, site⟩
+  | .exit c e =>
+    match ret with
+    | some r =>
+      match Γ.lookupVal c with
+      | some v => if v.ty == .bool then checkExpr Γ site .wrongReturnType e r
+                  else .error ⟨.typeMismatch, site⟩
+      | none => .error ⟨.undefinedName, site⟩
+    | none => .error ⟨.misplacedReturn, site⟩
 
 /-- run `f i x` over the list, indices counted from `i`; the first error wins -/
 def checkList {α : Type} (f : Nat → α → Except TypeErr Unit) (i : Nat) : List α → Except TypeErr Unit
@@ -308,10 +402,12 @@ def checkList {α : Type} (f : Nat → α → Except TypeErr Unit) (i : Nat) : L
     | .error e => .error e
 
 def FunDef.locals (d : FunDef) : List Val :=
-  d.params.map (fun p => ⟨p.1, p.2, false⟩) ++ d.body.filterMap Stmt.binding
+  d.params.map (fun p => ⟨p.name, p.ty, false⟩) ++ d.body.filterMap Stmt.binding
 
+/-- a statement that gives the body its value -/
 def Stmt.isRet : Stmt → Bool
   | .ret _ => true
+  | .value _ => true
   | _ => false
 
 def endsWithRet (body : List Stmt) : Bool :=
@@ -327,9 +423,14 @@ def checkFun (Γ : Env) (site : Site) (d : FunDef) : Except TypeErr Unit :=
   | .ok () => if endsWithRet d.body then .ok () else .error ⟨.missingReturn, site⟩
   | .error e => .error e
 
+/-- a definition with signature `d` provides the required `σ`: same operator type, and the same
+parameters carry defaults (the parameter names of a definition are its own) -/
+def implements (d σ : Sig) : Bool :=
+  d.sameType σ && d.params.map (·.dflt.isSome) == σ.params.map (·.dflt.isSome)
+
 /-- does the `add` body define every signature the category requires? -/
 def covers (defs : List FunDef) (sigs : List Sig) : Bool :=
-  sigs.all (fun σ => defs.any (fun d => d.sig == σ))
+  sigs.all (fun σ => defs.any (fun d => implements d.sig σ))
 
 def checkAdd (g : GEnv) (site : Site) (param : Option (String × String)) (c : String)
     (defs : List FunDef) : Except TypeErr Unit :=
@@ -360,7 +461,10 @@ mutual
 def CanTy (Γ : Env) : Expr → BTy → Prop
   | .lit t0 _, t => t0 = t
   | .var x, t => ∃ v, Γ.lookupVal x = some v ∧ v.ty = t
-  | .app f q args, t => ∃ m, m ∈ meanings Γ f q ∧ m.sig.res = t ∧ CanTyArgs Γ args m.sig.args
+  | .app f q args keys, t =>
+    keysFree Γ keys = true ∧
+    ∃ m, m ∈ meanings Γ f q ∧ m.sig.res = t ∧
+      ∃ ts, m.sig.shape args.length keys = .ok ts ∧ CanTyArgs Γ args ts
 def CanTyArgs (Γ : Env) : List Expr → List BTy → Prop
   | [], [] => True
   | a :: as, t :: ts => CanTy Γ a t ∧ CanTyArgs Γ as ts
@@ -377,9 +481,12 @@ mutual
 def WT (Γ : Env) : Expr → BTy → Prop
   | .lit t0 _, t => t0 = t
   | .var x, t => ∃ v, Γ.lookupVal x = some v ∧ v.ty = t
-  | .app f q args, t =>
-    ∃ m, OnlyOne (fun m => m.sig.res = t ∧ CanTyArgs Γ args m.sig.args) (meanings Γ f q) m ∧
-         WTArgs Γ args m.sig.args
+  | .app f q args keys, t =>
+    keysFree Γ keys = true ∧
+    ∃ m, OnlyOne (fun m => m.sig.res = t ∧
+                    ∃ ts, m.sig.shape args.length keys = .ok ts ∧ CanTyArgs Γ args ts)
+           (meanings Γ f q) m ∧
+         ∃ ts, m.sig.shape args.length keys = .ok ts ∧ WTArgs Γ args ts
 def WTArgs (Γ : Env) : List Expr → List BTy → Prop
   | [], [] => True
   | a :: as, t :: ts => WT Γ a t ∧ WTArgs Γ as ts
@@ -391,13 +498,15 @@ def StmtWT (Γ : Env) (ret : Option BTy) : Stmt → Prop
   | .defVar _ t e => WT Γ e t
   | .assign x e => ∃ v, Γ.scopeVals.find? (·.name == x) = some v ∧ v.const = false ∧ WT Γ e v.ty
   | .ret e => ∃ r, ret = some r ∧ WT Γ e r
+  | .value e => ∃ r, ret = some r ∧ WT Γ e r
+  | .exit c e => ∃ r v, ret = some r ∧ Γ.lookupVal c = some v ∧ v.ty = .bool ∧ WT Γ e r
 
 def FunWT (Γ : Env) (d : FunDef) : Prop :=
   (∀ s ∈ d.body, StmtWT (Γ.enter d) (some d.res) s) ∧ endsWithRet d.body = true
 
 def AddWT (g : GEnv) (param : Option (String × String)) (c : String) (defs : List FunDef) : Prop :=
   g.catDefined c = true ∧
-  (∀ σ ∈ g.catSigs c, ∃ d ∈ defs, d.sig = σ) ∧
+  (∀ σ ∈ g.catSigs c, ∃ d ∈ defs, implements d.sig σ = true) ∧
   ∀ d ∈ defs, FunWT { g := g, param := param, sibs := defs.map FunDef.sig } d
 
 def DeclWT (g : GEnv) : Decl → Prop
@@ -416,7 +525,7 @@ def ProgWT (p : Prog) : Prop := ∀ d ∈ p, DeclWT (globalEnv p) d
 inductive Kind where
   /-- replace argument `a` of the application at the site by a literal of type `t` -/
   | wrongArgType (a : Nat) (t : BTy)
-  /-- append a literal argument (`more`) or drop the last argument -/
+  /-- add a literal positional argument (`more`) or drop the last positional argument -/
   | wrongArgCount (more : Bool)
   /-- rename the variable / the operator at the site to a name that has no meaning -/
   | undefinedName (fresh : String)
@@ -424,13 +533,26 @@ inductive Kind where
   | ambiguous
   /-- make the assignment at the site assign to the constant `c` of the same scope -/
   | assignConst (c : String)
-  /-- replace the returned expression by a literal of type `t`, not the declared result type -/
+  /-- replace the expression in a value position of a function body (operand of `return`, last
+      expression of the `{…}` body, value of `c => v`, bare-expression body) by the explicitly
+      restricted literal `(0@t)`, `t` not the declared result type -/
   | wrongReturnType (t : BTy)
   /-- remove definition `d` from the `add` body at the site, leaving a required export undefined -/
   | missingExport (d : Nat)
   /-- replace the operator of an application `f(…)$T` (T the functor's parameter) by `g`, which
       T's category does not export -/
   | paramLacksOp (g : String)
+  /-- give the last argument of the call the keyword `y`, which is not a parameter of the callee
+      (rename the last keyword, or make the last positional argument a keyword argument) -/
+  | unknownKeyword (y : String)
+  /-- positional arguments up to one more than the callee has parameters, for a callee with
+      default-valued parameters -/
+  | tooManyPositional
+  /-- add a keyword argument naming the callee's first parameter, which is given positionally -/
+  | keywordDupPositional
+  /-- drop the positional arguments from the last parameter without default on, for a callee
+      whose later parameters have defaults -/
+  | omitRequired
 deriving DecidableEq, Repr
 
 def expectedKind : Kind → ErrKind
@@ -442,6 +564,20 @@ def expectedKind : Kind → ErrKind
   | .wrongReturnType _ => .wrongReturnType
   | .missingExport _ => .missingExport
   | .paramLacksOp _ => .paramLacksOp
+  | .unknownKeyword _ => .unknownKeyword
+  | .tooManyPositional => .wrongArgCount
+  | .keywordDupPositional => .duplicateArg
+  | .omitRequired => .wrongArgCount
+
+/-- every visible meaning rejects a call of this form for reason `r` -/
+def allShape (Γ : Env) (f : String) (q : Option String) (n : Nat) (keys : List String) (r : Shape) : Bool :=
+  (meanings Γ f q).all (fun m => m.sig.shape n keys == r)
+
+/-- index of the last parameter without default among the first `np` -/
+def lastRequired (ps : List Param) (np : Nat) : Option Nat :=
+  ((List.range np).filter (fun i => match ps[i]? with
+                                    | some p => p.dflt.isNone
+                                    | none => false)).getLast?
 
 /-- the local rewrite of an expression node (with its eligibility test) -/
 def mutExpr (k : Kind) (Γ : Env) : Expr → Option Expr
@@ -450,35 +586,69 @@ def mutExpr (k : Kind) (Γ : Env) : Expr → Option Expr
     match k with
     | .undefinedName y => if (Γ.lookupVal y).isNone then some (.var y) else none
     | _ => none
-  | .app f q args =>
+  | .app f q args keys =>
+    let np := args.length - keys.length
     match k with
     | .wrongArgType a t =>
       if a < args.length ∧
-         (meanings Γ f q).all (fun m => m.sig.args.length != args.length || m.sig.args[a]? != some t)
-      then some (.app f q (args.set a (.lit t 0))) else none
+         (meanings Γ f q).all (fun m => match m.sig.shape args.length keys with
+                                        | .ok ts => ts[a]? != some t
+                                        | _ => true)
+      then some (.app f q (args.set a (.lit t 0)) keys) else none
     | .wrongArgCount more =>
-      let args' := if more then args ++ [.lit .mint 0] else args.dropLast
-      if args'.length ≠ args.length ∧
-         (meanings Γ f q).all (fun m => m.sig.args.length != args'.length)
-      then some (.app f q args') else none
+      let args' := if more then args.take np ++ [.lit .mint 0] ++ args.drop np else args.eraseIdx (np - 1)
+      -- (dropping needs a positional argument: the keyword arguments stay)
+      if (more ∨ 0 < np) ∧ args'.length ≠ args.length ∧ allShape Γ f q args'.length keys .count
+      then some (.app f q args' keys) else none
     | .undefinedName y =>
-      if !Γ.isParam q ∧ (meanings Γ y q).isEmpty then some (.app y q args) else none
+      if !Γ.isParam q ∧ (meanings Γ y q).isEmpty then some (.app y q args keys) else none
     | .paramLacksOp y =>
-      if Γ.isParam q ∧ (meanings Γ y q).isEmpty then some (.app y q args) else none
+      if Γ.isParam q ∧ (meanings Γ y q).isEmpty then some (.app y q args keys) else none
     | .ambiguous =>
       match q, meanings Γ f q with
       | some _, m0 :: mq =>
         if 2 ≤ (meanings Γ f none).length ∧ mq.all (·.sig == m0.sig) ∧
            (meanings Γ f none).all (·.sig == m0.sig)
-        then some (.app f none args) else none
+        then some (.app f none args keys) else none
       | _, _ => none
+    | .unknownKeyword y =>
+      let keys' := if keys.isEmpty then [y] else keys.dropLast ++ [y]
+      if 0 < args.length ∧ (Γ.lookupVal y).isNone ∧ allShape Γ f q args.length keys' .unknownKw
+      then some (.app f q args keys') else none
+    | .tooManyPositional =>
+      match meanings Γ f q with
+      | m0 :: _ =>
+        let args' := args.take np ++ List.replicate (m0.sig.params.length + 1 - np) (.lit .mint 0) ++ args.drop np
+        if m0.sig.params.any (·.dflt.isSome) ∧ allShape Γ f q args'.length keys .count
+        then some (.app f q args' keys) else none
+      | [] => none
+    | .keywordDupPositional =>
+      match meanings Γ f q with
+      | m0 :: _ =>
+        match m0.sig.params with
+        | p0 :: _ =>
+          if 0 < np ∧ (Γ.lookupVal p0.name).isNone ∧
+             allShape Γ f q (args.length + 1) (keys ++ [p0.name]) .dupArg
+          then some (.app f q (args ++ [.lit p0.ty 0]) (keys ++ [p0.name])) else none
+        | [] => none
+      | [] => none
+    | .omitRequired =>
+      match meanings Γ f q with
+      | m0 :: _ =>
+        match lastRequired m0.sig.params np with
+        | some r =>
+          let args' := args.take r ++ args.drop np
+          if (m0.sig.params.drop (r + 1)).any (·.dflt.isSome) ∧ allShape Γ f q args'.length keys .count
+          then some (.app f q args' keys) else none
+        | none => none
+      | [] => none
     | _ => none
 
 mutual
 /-- apply `F` to the node at path `π` -/
 def Expr.modAt (F : Expr → Option Expr) : Site → Expr → Option Expr
   | [], e => F e
-  | a :: π, .app f q args => (modArgs F a π args).map (.app f q)
+  | a :: π, .app f q args keys => (modArgs F a π args).map (fun as => .app f q as keys)
   | _ :: _, _ => none
 def modArgs (F : Expr → Option Expr) : Nat → Site → List Expr → Option (List Expr)
   | _, _, [] => none
@@ -491,12 +661,23 @@ def Stmt.expr : Stmt → Expr
   | .defVar _ _ e => e
   | .assign _ e => e
   | .ret e => e
+  | .value e => e
+  | .exit _ e => e
 
 def Stmt.setExpr : Stmt → Expr → Stmt
   | .defConst x t _, e => .defConst x t e
   | .defVar x t _, e => .defVar x t e
   | .assign x _, e => .assign x e
   | .ret _, e => .ret e
+  | .value _, e => .value e
+  | .exit c _, e => .exit c e
+
+/-- the statement's expression stands in a value position of the function body -/
+def Stmt.isValuePos : Stmt → Bool
+  | .ret _ => true
+  | .value _ => true
+  | .exit _ _ => true
+  | _ => false
 
 /-- the rewrite of a statement: `r` is the rest of the site below the statement -/
 def mutStmt (k : Kind) (Γ : Env) (ret : Option BTy) (r : Site) (s : Stmt) : Option Stmt :=
@@ -507,9 +688,9 @@ def mutStmt (k : Kind) (Γ : Env) (ret : Option BTy) (r : Site) (s : Stmt) : Opt
       match Γ.scopeVals.find? (·.name == c) with
       | some v => if v.const then some (.assign c e) else none
       | none => none
-    | .wrongReturnType t, .ret _ =>
+    | .wrongReturnType t, s =>
       match ret with
-      | some r => if t ≠ r then some (.ret (.lit t 0)) else none
+      | some r => if s.isValuePos ∧ t ≠ r then some (s.setExpr (.lit t 0)) else none
       | none => none
     | _, _ => none
   | 0 :: π =>
@@ -562,7 +743,7 @@ def mutate (k : Kind) (s : Site) (p : Prog) : Option Prog :=
 
 mutual
 def Expr.sites (site : Site) : Expr → List Site
-  | .app _ _ args => site :: argSites site 0 args
+  | .app _ _ args _ => site :: argSites site 0 args
   | _ => [site]
 def argSites (site : Site) (i : Nat) : List Expr → List Site
   | [] => []
@@ -597,27 +778,41 @@ def BTy.render : BTy → String
 
 def commaSep (l : List String) : String := ", ".intercalate l
 
+def BTy.lit (t : BTy) (n : Nat) : String :=
+  match t with
+  | .bool => "(" ++ (if n % 2 == 0 then "true" else "false") ++ "@Boolean)"
+  | .str => "(\"s" ++ toString n ++ "\"@String)"
+  | t => "(" ++ toString n ++ "@" ++ t.render ++ ")"
+
+/-- the text in front of argument `i` of `n`: `k == ` for the keyword arguments -/
+def keyPrefix (n : Nat) (keys : List String) (i : Nat) : String :=
+  if n - keys.length ≤ i then
+    match keys[i - (n - keys.length)]? with
+    | some k => k ++ " == "
+    | none => ""
+  else ""
+
 mutual
 def Expr.render : Expr → String
-  | .lit .bool n => "(" ++ (if n % 2 == 0 then "true" else "false") ++ "@Boolean)"
-  | .lit .str n => "(\"s" ++ toString n ++ "\"@String)"
-  | .lit t n => "(" ++ toString n ++ "@" ++ t.render ++ ")"
+  | .lit t n => t.lit n
   | .var x => x
-  | .app f q args =>
-    f ++ "(" ++ commaSep (renderArgs args) ++ ")" ++ (match q with | some Q => "$" ++ Q | none => "")
-def renderArgs : List Expr → List String
+  | .app f q args keys =>
+    f ++ "(" ++ commaSep (renderArgs args.length keys 0 args) ++ ")" ++
+      (match q with | some Q => "$" ++ Q | none => "")
+def renderArgs (n : Nat) (keys : List String) (i : Nat) : List Expr → List String
   | [] => []
-  | a :: as => a.render :: renderArgs as
+  | a :: as => (keyPrefix n keys i ++ a.render) :: renderArgs n keys (i + 1) as
 end
 
-/-- (offset, length) of the node at path `π` inside the rendering of the expression -/
+/-- (offset, length) of the node at path `π` inside the rendering of the expression; for a
+keyword argument the span of its value -/
 def Expr.span : Site → Expr → Option (Nat × Nat)
   | [], e => some (0, e.render.length)
-  | a :: π, .app f _ args =>
+  | a :: π, .app f _ args keys =>
     match args[a]? with
     | some arg =>
-      let before := (renderArgs (args.take a)).foldl (fun n s => n + s.length + 2) (f.length + 1)
-      (Expr.span π arg).map (fun ol => (before + ol.1, ol.2))
+      let before := ((renderArgs args.length keys 0 args).take a).foldl (fun n s => n + s.length + 2) (f.length + 1)
+      (Expr.span π arg).map (fun ol => (before + (keyPrefix args.length keys a).length + ol.1, ol.2))
     | none => none
   | _ :: _, _ => none
 
@@ -627,18 +822,35 @@ def Stmt.prefix (inFun : Bool) : Stmt → String
   | .defVar x t _ => (if inFun then "local " else "") ++ x ++ ": " ++ t.render ++ " := "
   | .assign x _ => x ++ " := "
   | .ret _ => "return "
+  | .value _ => ""
+  | .exit c _ => c ++ " => "
 
-def Stmt.render (inFun : Bool) (s : Stmt) : String := s.prefix inFun ++ s.expr.render ++ ";"
+/-- the last expression of a body carries no `;` -/
+def Stmt.suffix : Stmt → String
+  | .value _ => ""
+  | _ => ";"
+
+def Stmt.render (inFun : Bool) (s : Stmt) : String := s.prefix inFun ++ s.expr.render ++ s.suffix
+
+def Param.render (p : Param) : String :=
+  p.name ++ ": " ++ p.ty.render ++ (match p.dflt with | some n => " == " ++ p.ty.lit n | none => "")
 
 def Sig.render (s : Sig) : String :=
-  s.name ++ ": (" ++ commaSep (s.args.map BTy.render) ++ ") -> " ++ s.res.render ++ ";"
+  s.name ++ ": (" ++ commaSep (if s.anon then s.args.map BTy.render else s.params.map Param.render) ++
+    ") -> " ++ s.res.render ++ ";"
 
 def indent (n : Nat) (s : String) : String := "".pushn ' ' n ++ s
 
+/-- `name(params): R == ` -/
+def FunDef.head (d : FunDef) : String :=
+  d.name ++ "(" ++ commaSep (d.params.map Param.render) ++ "): " ++ d.res.render ++ " == "
+
 def FunDef.render (ind : Nat) (d : FunDef) : List String :=
-  [indent ind (d.name ++ "(" ++ commaSep (d.params.map (fun p => p.1 ++ ": " ++ p.2.render)) ++ "): " ++
-     d.res.render ++ " == {")] ++
-  d.body.map (fun s => indent (ind + 4) (s.render true)) ++ [indent ind "}"]
+  if d.bare then
+    [indent ind (d.head ++ commaSep (d.body.map (fun s => s.expr.render)) ++ ";")]
+  else
+    [indent ind (d.head ++ "{")] ++
+    d.body.map (fun s => indent (ind + 4) (s.render true)) ++ [indent ind "}"]
 
 def Decl.render : Decl → List String
   | .cat n sigs => [n ++ ": Category == with {"] ++ sigs.map (fun s => indent 4 s.render) ++ ["}"]
@@ -673,14 +885,16 @@ def Stmt.spanAt (inFun : Bool) (line ind : Nat) (s : Stmt) : Site → Option Spa
       ⟨line, c + 1, line, c + ol.2⟩)
   | _ => none
 
-def FunDef.spanAt (line ind : Nat) (d : FunDef) : Site → Option Span
-  | j :: r => match d.body[j]? with
-    | some s => s.spanAt true (line + 1 + j) (ind + 4) r
-    | none => none
-  | [] => none
-
 def blockSpan (line : Nat) (ls : List String) : Span :=
   ⟨line, 1, line + ls.length - 1, (ls.getLast?.getD "").length⟩
+
+def FunDef.spanAt (line ind : Nat) (d : FunDef) : Site → Option Span
+  | j :: r => match d.body[j]? with
+    | some s =>
+      if d.bare then s.spanAt true line (ind + d.head.length) r
+      else s.spanAt true (line + 1 + j) (ind + 4) r
+    | none => none
+  | [] => some (blockSpan line (d.render ind))     -- the whole definition
 
 def Decl.spanAt (line : Nat) (d : Decl) (r : Site) : Option Span :=
   match d, r with
@@ -715,17 +929,29 @@ def Prog.stmtSite (p : Prog) : Site → Site
     | _, _ => [i]
   | [] => []
 
-/-- constraints of the generated family that are not typing rules, checked by the driver as a
-precondition of the correspondence (not part of the judgement):
-* names are pairwise distinct where the model does not look at clashes (values in one scope,
-  values against file-level values, functions by signature, domains, categories, signatures in
-  a category, definitions in an `add`);
-* file-level statements and imports follow every domain and functor definition (the compiler has an
-  "implementation restriction": a non-lazy constant, such as a domain, cannot be used outside
-  an `add` before its definition). -/
-def nodupB {α : Type} [BEq α] : List α → Bool
+/-- the site of the function definition enclosing `site` (the statement itself at file level):
+a `{…}` body with a single statement has no node of its own, and the compiler then reports some
+faults of that statement at the `{` -/
+def Prog.defSite (p : Prog) : Site → Site
+  | i :: r => match p[i]?, r with
+    | some (.dom ..), di :: _ => [i, di]
+    | some (.functor ..), di :: _ => [i, di]
+    | _, _ => [i]
+  | [] => []
+
+mutual
+/-- every call has at most as many keywords as arguments -/
+def Expr.wfKeys : Expr → Bool
+  | .app _ _ args keys => keys.length ≤ args.length && wfKeysArgs args
+  | _ => true
+def wfKeysArgs : List Expr → Bool
   | [] => true
-  | x :: xs => !xs.contains x && nodupB xs
+  | a :: as => a.wfKeys && wfKeysArgs as
+end
+
+def Prog.stmts (p : Prog) : List Stmt :=
+  p.flatMap (fun | .func d => d.body | .dom _ _ ds => ds.flatMap (·.body)
+                 | .functor _ _ _ _ ds => ds.flatMap (·.body) | .stmt s => [s] | _ => [])
 
 def Prog.funDefs (p : Prog) : List FunDef :=
   p.flatMap (fun | .func d => [d] | .dom _ _ ds => ds | .functor _ _ _ _ ds => ds | _ => [])
@@ -736,6 +962,16 @@ def stmtsLast : Prog → Bool
   | .imp _ :: r => r.all (fun | .dom .. => false | .functor .. => false | _ => true) && stmtsLast r
   | _ :: r => stmtsLast r
 
+/-- constraints of the generated family that are not typing rules, checked by the driver as a
+precondition of the correspondence (not part of the judgement):
+* names are pairwise distinct where the model does not look at clashes (values in one scope,
+  values against file-level values, functions by signature, domains, categories, signatures in
+  a category, definitions in an `add`);
+* file-level statements and imports follow every domain and functor definition (the compiler has an
+  "implementation restriction": a non-lazy constant, such as a domain, cannot be used outside
+  an `add` before its definition);
+* every call has at most as many keywords as arguments; parameter names of one signature are distinct; only category signatures are anonymous, and those
+  have no defaults; a bare-expression body is a single value; `.value` is the last statement. -/
 def Prog.familyOk (p : Prog) : Bool :=
   stmtsLast p &&
   let g := globalEnv p
@@ -745,6 +981,11 @@ def Prog.familyOk (p : Prog) : Bool :=
   nodupB (valNames ++ typeNames ++ (g.funcs.map (·.name)).eraseDups) && nodupB g.funcs &&
   g.cats.all (fun c => nodupB c.2) &&
   p.all (fun | .dom _ _ ds => nodupB (ds.map FunDef.sig) | .functor _ _ _ _ ds => nodupB (ds.map FunDef.sig) | _ => true) &&
-  p.funDefs.all (fun d => nodupB (d.locals.map (·.name)) && d.locals.all (fun v => !(valNames ++ typeNames).contains v.name))
+  p.funDefs.all (fun d => nodupB (d.locals.map (·.name)) && d.locals.all (fun v => !(valNames ++ typeNames).contains v.name)) &&
+  p.funDefs.all (fun d => (!d.bare || (d.body.length == 1 && d.body.all (fun | .value _ => true | _ => false))) &&
+    d.body.dropLast.all (fun | .value _ => false | _ => true) &&
+    (match d.body.getLast? with | some (.exit ..) => false | _ => true)) &&
+  g.cats.all (fun c => c.2.all (fun σ => nodupB (σ.params.map (·.name)) && (!σ.anon || σ.params.all (·.dflt.isNone)))) &&
+  p.funDefs.all (fun d => !d.sig.anon) && p.stmts.all (fun s => s.expr.wfKeys)
 
 end AldorVerif.MiniTy
